@@ -136,7 +136,9 @@ func isoHash2B(pwd, salt, udata []byte) []byte {
 			s := sha512.Sum512(E)
 			K = s[:]
 		}
-		if round >= 63 && int(E[len(E)-1]) <= round-32 {
+		// "round number" counts the rounds done so far (qpdf, MuPDF and Adobe agree): after
+		// at least 64 rounds stop as soon as the last byte of E is <= rounds - 32
+		if done := round + 1; done >= 64 && int(E[len(E)-1]) <= done-32 {
 			break
 		}
 	}
